@@ -367,9 +367,42 @@ func recreatedPartition(prop string, rt *caseRT, v vio) vio {
 	}
 	parts := rt.c.Colls[sp.Coll].Parts
 	for pi := 0; pi < sp.Part; pi++ {
-		if parts[pi].Name == parts[sp.Part].Name {
-			return vio{key: prop + "/message-of-partition-created-again-under-a-dropped-name", desc: fmt.Sprintf("[%s] %s", v.key, v.desc)}
+		if parts[pi].Name != parts[sp.Part].Name {
+			continue
 		}
+		// The recorded finding needs a refresh of the name cache that brought the dropped name back: a lookup of the
+		// downstream catalog that was answered AFTER the old incarnation's drop message had been handed to a shard and
+		// still carried the old incarnation (name = its downstream id). Without such an answer the stale name cannot
+		// come from a refresh, and the violation keeps its own key.
+		var dropFed int64 = -1
+		for si := range rt.c.Colls[sp.Coll].Shards {
+			k := findDropPack(rt.c, sp.Coll, si, pi, kDropPart)
+			if k < 0 {
+				continue
+			}
+			srcP := rt.c.Colls[sp.Coll].Shards[si].SrcP
+			for _, e := range rt.evCopy() {
+				if e.Kind == "feed" && e.P == srcP && e.Idx == k && (dropFed < 0 || e.Clock < dropFed) {
+					dropFed = e.Clock
+				}
+			}
+		}
+		want := fmt.Sprintf("%s=%d", parts[pi].Name, parts[pi].DstID)
+		refreshed := false
+		for _, e := range rt.evCopy() {
+			if e.Kind != "target-lookup" || e.Key != rt.c.Colls[sp.Coll].Name || dropFed < 0 || e.Clock <= dropFed {
+				continue
+			}
+			for _, kv := range e.Shards {
+				if kv == want {
+					refreshed = true
+				}
+			}
+		}
+		if !refreshed {
+			return v
+		}
+		return vio{key: prop + "/message-of-partition-created-again-under-a-dropped-name", desc: fmt.Sprintf("[%s] %s", v.key, v.desc)}
 	}
 	return v
 }
